@@ -1,6 +1,7 @@
 /* Unit harness for the evaluator: real parser (config_parse), real expr_eval,
  * matches_interpolate, matches_inspect.  Every request runs in a forked child so
  * that parser globals start fresh and a crash is reported as a FAULT line. */
+#include "config.h"	/* first, as in every module: it selects the feature-test macros the system headers obey */
 #include <errno.h>
 #include <signal.h>
 #include <unistd.h>
